@@ -190,9 +190,11 @@ func kafkaBatchRun(res *mon.Result, c *schemaCase, file string, idx int, exps []
 	marks := map[int64]bool{}
 	lateMark := false
 	histAt := 0
+	nMsgs := 0
 	poll := func() {
 		hist := broker.History()
 		for _, km := range producedSince(hist, histAt, topic) {
+			nMsgs++
 			var rc rec
 			rc.raw = km.value
 			rest, err := rc.md.UnmarshalMsg(km.value)
@@ -213,8 +215,13 @@ func kafkaBatchRun(res *mon.Result, c *schemaCase, file string, idx int, exps []
 		}
 		histAt = len(hist)
 	}
+	// the same argument by message count: flushes go out in order, so once as many messages as representable
+	// lines plus flushMaxNum have arrived - whatever they contain - every flush with a real line in it is complete
 	for s := 0; s < 60000 && !lateMark; s++ { // watchdog (about 1000x the usual time), not a verdict
 		poll()
+		if nMsgs >= want+flushMaxNum {
+			lateMark = true
+		}
 		if !lateMark {
 			time.Sleep(5 * time.Millisecond)
 		}
@@ -307,13 +314,13 @@ func kafkaBatchRun(res *mon.Result, c *schemaCase, file string, idx int, exps []
 	// tidy up: after Shutdown the route flushes what it still holds (the remaining markers); only then may the
 	// broker go away, or the route's flush would retry against a dead address for ever
 	rt.Shutdown()
-	for s := 0; s < 20000 && len(marks) < nMark; s++ {
+	for s := 0; s < 20000 && nMsgs < want+nMark; s++ {
 		poll()
-		if len(marks) < nMark {
+		if nMsgs < want+nMark {
 			time.Sleep(5 * time.Millisecond)
 		}
 	}
-	if len(marks) < nMark {
+	if nMsgs < want+nMark {
 		res.Count("kafka_brokers_left_open", 1)
 	} else {
 		broker.Close()
